@@ -18,7 +18,7 @@ JOB_GEN = 'checks.jobs:gen_world'
 STAGES = ['test_all', 'fisher', 'match', 'combine']
 OBS_CONFIGS = [('core_maths', 3), ('core_maths', 4), ('osc_maths', 3), ('base_e_maths', 3), ('core_maths', 2), ('ext_maths', 2), ('core_maths', 5), ('core_maths', 1)]
 OTHER = [('ext_maths', 3), ('osc_maths', 2), ('base10_maths', 3), ('keep_duplicates', 2), ('core_maths', 5), ('base_e_maths', 2), ('ext_maths', 1),
-         ('osc_maths', 4)]
+         ('osc_maths', 4), ('base_e_maths', 3), ('keep_duplicates', 3), ('base_e_maths', 4)]
 FIT_OPTS = dict(Niter_params=[2], Nconv_params=[1])
 # a basis without binary operators has two functions per complexity, so complexity 10 is generated in seconds: the only
 # affordable way to have a compl_10 directory next to compl_2..compl_9 in one library
@@ -75,6 +75,8 @@ for _P in (1, 2):
 for _cfg in (('core_maths', 3), ('core_maths', 4)):
     DIRECTED.append(dict(cfg=_cfg, kind='gen', P_obs=1, gen_seed=0, ops=['gen_same_basis', 'pipe_same']))
     DIRECTED.append(dict(cfg=_cfg, kind='gen', P_obs=2, gen_seed=0, ops=['gen_identical']))
+for _st in STAGES:
+    DIRECTED.append(dict(cfg=('core_maths', 3), kind='fit', stage=_st, P_obs=1, P_first=1, ipe=False, mock=False, relative=True, ops=['gen_same_basis', 'gen_other']))
 DIRECTED.append(dict(cfg=('core_maths', 3), kind='fit', stage='combine', P_obs=1, P_first=1, ipe=False, prior_changed=True, ops=['pipe_same']))
 DIRECTED.append(dict(cfg=('core_maths', 4), kind='fit', stage='combine', P_obs=2, P_first=2, ipe=False, prior_changed=True, ops=['pipe_same', 'pipe_other_like']))
 for _st in STAGES:
@@ -130,6 +132,8 @@ def draw_history(seed, i, quick, recipe=None):
     P_obs = rng.choice([1, 1, 2])
     P_obs = recipe.get('P_obs', P_obs)
     like_obs = dict(cls='Gauss', data_file='data.txt', run_name='obs', data_dir='user', fn_set=runname)
+    if recipe.get('relative', rng.random() < 0.3):
+        like_obs['relative'] = True       # a relative data_dir, as in the documentation examples: depends on the current directory
     if recipe.get('mock', rng.random() < 0.2):
         # a likelihood whose prediction does not guard against floating-point exceptions (sqrt of the model)
         like_obs = dict(cls='Mock', nz=320, yfracerr=0.2, fn_set=runname)
